@@ -4,7 +4,9 @@ C11: staging directives move the named data to the named place.
 1. the design model Staging is checked exhaustively by TLC over all its cases
    (directive lists of length <= 2 in both forms, all actions, all schemas,
    missing sources, directory targets (trailing slash), targets that exist
-   already, client sandbox = / != working directory, task outcome DONE / FAILED /
+   already, client sandbox = / != working directory, task sandbox default /
+   relative / absolute x endpoint local / remote, a second generation of tasks
+   through the same stager objects after the target directory went away, task outcome DONE / FAILED /
    CANCELED, stage_on_error); the same run is the
    enumerator of the rig's inputs (every initial state is printed);
 2. thorough: every Dev constant set TRUE must break its invariant;
@@ -30,14 +32,17 @@ INVARIANTS = ['TypeOK', 'InvPlaced', 'InvCarried', 'InvMissingFails', 'InvFailur
               'InvMoveRemoves',
               'InvLinkShares', 'InvOutOnlyIfDone', 'InvStageOnError', 'InvFailureLocal']
 DEVS = ['DevTarballSkipped', 'DevCopyIgnoresStatus', 'DevClientSkipsOnError', 'DevCopyUnquoted',
-        'DevDirTestInCwd', 'DevSlashDropped', 'DevLinkNoDirTarget', 'DevClientIsCwd']
+        'DevDirTestInCwd', 'DevSlashDropped', 'DevLinkNoDirTarget', 'DevClientIsCwd',
+        'DevMkdirCached', 'DevAbsSandboxLocal']
 EXPECT = {'DevTarballSkipped': 'InvCarried', 'DevCopyIgnoresStatus': 'InvMissingFails',
           'DevClientSkipsOnError': 'InvStageOnError', 'DevCopyUnquoted': 'InvFailureJustified',
           'DevDirTestInCwd': 'InvPlaced', 'DevSlashDropped': 'InvPlaced',
-          'DevLinkNoDirTarget': 'InvFailureJustified', 'DevClientIsCwd': 'InvPlaced'}
+          'DevLinkNoDirTarget': 'InvFailureJustified', 'DevClientIsCwd': 'InvPlaced',
+          'DevMkdirCached': 'InvFailureJustified', 'DevAbsSandboxLocal': 'InvPlaced'}
 
 WORKERS = 8         # the run is bound by the (sequential) enumeration of the initial states
 MON_WORKERS = 1
+RIG_PROCS = 4
 
 
 # ------------------------------------------------------------------------------
@@ -69,12 +74,13 @@ def enumerate_cases(chk):
     for txt in tlc.extract_tuples(res.out, 'CASE'):
         c = tlc.parse_value(txt)[1]
         c = {'din': [dict(d) for d in c['din']], 'dout': [dict(d) for d in c['dout']],
-             'oc': c['oc'], 'soe': bool(c['soe']), 'cs': c['cs']}
+             'oc': c['oc'], 'soe': bool(c['soe']), 'cs': c['cs'], 'sb': c['sb'], 'ep': c['ep'],
+             'g2': c['g2']}
         key = repr(c)
         if key not in seen:
             seen.add(key)
             cases.append(c)
-    if len(cases) * 7 != res.distinct:
+    if sum(7 if c['g2'] == 'none' else 14 for c in cases) != res.distinct:
         raise Machinery('case enumeration incomplete: %d cases, %d states'
                         % (len(cases), res.distinct))
     cases.sort(key=lambda c: (len(c['din']) + len(c['dout']), repr(c)))
@@ -110,6 +116,10 @@ def case_classes(c):
         return [('empty',) + oc]
     if len(ds) == 1:
         d, dr = ds[0], 'in' if nin else 'out'
+        if c['g2'] != 'none':       # two generations through the same stager objects
+            return [('gen', c['g2'], dr, d['act'] == 'TRANSFER'), ('genact', dr, d['act'], d['tp'])]
+        if (c['sb'], c['ep']) != ('default', 'local'):      # resolution context
+            return [('ctx', c['sb'], c['ep'], dr, d['act'] == 'TRANSFER', d['tk'] == 'pilot')]
         if c['cs'] == 'same':       # client sandbox = working directory of the client
             return [('cs-same', dr, d['form'], d['act']),
                     ('cs-same-k', dr, kclass(d['sk']), kclass(d['tk']))]
@@ -162,6 +172,10 @@ def classify(case, clause, info):
     acts = sorted(set(d['act'] for d in case['din'] + case['dout']))
     if clause == 'C11.FailureLocal':
         return 'bystander task'
+    if case['g2'] != 'none':
+        return 'second task generation, target directory gone (%s), %s' % (case['g2'], '/'.join(acts))
+    if (case['sb'], case['ep']) != ('default', 'local'):
+        return 'task sandbox %s, endpoint %s, %s' % (case['sb'], case['ep'], '/'.join(acts))
     if clause == 'C11.FailsTask':
         missed = sorted(i.split('.')[2] for i in info if i.startswith('I.Missed.'))
         return 'source missing, action %s' % '/'.join(missed or acts)
@@ -181,12 +195,20 @@ def classify(case, clause, info):
     return 'actions %s' % '/'.join(acts)
 
 
-def run_cases(cases):
-    traces = []
-    for c in cases:
-        tr = R.run_case(c)
-        traces.append({'case': c, 'events': tr['events']})
-    return traces
+def _one(c):
+    tr = R.run_case(c)
+    return {'case': c, 'events': tr['events']}
+
+
+def run_cases(cases, procs=None):
+    '''the cases are independent (one temp tree, one set of component objects
+       each): run them in a few forked worker processes, results in order'''
+    procs = RIG_PROCS if procs is None else procs
+    if procs <= 1 or len(cases) < 16:
+        return [_one(c) for c in cases]
+    import multiprocessing as mp
+    with mp.get_context('fork').Pool(procs) as pool:
+        return pool.map(_one, cases, chunksize=8)
 
 
 def split(errs):
@@ -231,9 +253,11 @@ def judge(chk, traces, kind, conform=True):
             if err == 'C11.FailsTask' and ('COPY' in cls or 'TRANSFER' in cls):
                 found.add('DevCopyIgnoresStatus')
             chk.violation(err, cls, 'real staging pipeline violates %s (%s case: in=%s out=%s '
-                          'outcome=%s stage_on_error=%s client sandbox %s cwd)'
+                          'outcome=%s stage_on_error=%s client sandbox %s cwd%s)'
                           % (err, kind, R_short(case['din']), R_short(case['dout']),
-                             case['oc'], case['soe'], '=' if case['cs'] == 'same' else '!='),
+                             case['oc'], case['soe'], '=' if case['cs'] == 'same' else '!=',
+                             ''.join(' %s=%s' % (k, case[k]) for k in ('sb', 'ep', 'g2')
+                                     if case[k] not in ('default', 'local', 'none'))),
                           {'rig': 'staging', 'case': case, 'errs': errs})
     if nsoe:
         found.add('DevClientSkipsOnError')
@@ -270,9 +294,12 @@ def run(chk, tier, seed):
 
     # ---- 2. deviation sensitivity ----------------------------------------------
     if not quick:
-        for dev in DEVS:
-            res = tlc.run('Staging', 'Staging', 'MC.cfg', workers=WORKERS, timeout=900,
-                          extra_files=model_cfg(devs=[dev], scope='dev'))
+        from concurrent.futures import ThreadPoolExecutor
+        with ThreadPoolExecutor(4) as ex:       # small runs, 2 TLC workers each
+            results = list(ex.map(lambda dev: tlc.run(
+                'Staging', 'Staging', 'MC.cfg', workers=2, timeout=900,
+                extra_files=model_cfg(devs=[dev], scope='dev')), DEVS))
+        for dev, res in zip(DEVS, results):
             chk.add_tlc(res, 'deviation:' + dev)
             if res.ok or res.violated != EXPECT[dev]:
                 raise Machinery('deviation %s not detected by the model (got %s)'
